@@ -396,6 +396,7 @@ let judge (input : string) (impl : string) (model : string) : verdict =
          let expect = "ok:" ^ glyph_norm (String.concat "/" [p.(2); (if p.(3) = "" then "-" else p.(3)); hex_of_bytes (parse_str p.(4)); p.(5)]) in
          if get "r" ip <> Some expect then viol "roundtrip" "glyph: read(write(v)) <> v" else same ()
        | _ -> same ())
+    | "glyphrd" when model = "r=composite" -> Agree   (* composite glyphs are not modelled *)
     | "glyphrd" ->
       (match get "r" ip, get "w" ip, get "r2" ip with
        | Some r, Some w, Some r2 when starts_with "ok:" r && is_bytes w ->
